@@ -25,7 +25,6 @@ import (
 	"fmt"
 	"os"
 	"sort"
-	"strings"
 	"sync"
 	"time"
 
@@ -114,6 +113,36 @@ type Obs struct {
 	Outs       []Out    `json:"outs,omitempty"`
 	Aborted    bool     `json:"aborted,omitempty"`
 	OtherError string   `json:"other_error,omitempty"`
+	// the RUNNER could not drive the case (a phase it scripts did not come about, it could not keep a
+	// schedule, a wait ran into a shortened deadline): says nothing about the code under test - the case
+	// is handed to Coq as Undriven: never judged, counted as broken correspondence
+	Harness string `json:"harness_error,omitempty"`
+}
+
+// endsSession: the message types after which a session may end by itself (a fail message, an
+// undecodable start message) - whoever sent them.
+func endsSession(m Msg) bool { return m.Type == "fail" || m.Type == "start" && m.Bad }
+
+// sessionEnd names what ended a session whose Execute returned ferr, from the error's TYPE and the
+// recorded SEQUENCE (last = the last consumed message that can end a session; sawBad = an undecodable
+// start message was consumed) - never from the error's text:
+// "" (nil, or the runner's own cancellation) | coord | badstart | abort | other.
+func sessionEnd(ferr error, last *Msg, sawBad bool) string {
+	var syn *json.SyntaxError
+	var ce *tss.CoordinatorError
+	switch {
+	case ferr == nil, errors.Is(ferr, context.Canceled):
+		return ""
+	case errors.As(ferr, &ce):
+		return "coord"
+	case errors.As(ferr, &syn) && sawBad:
+		return "badstart"
+	case last != nil && last.Type == "fail":
+		return "abort"
+	case last != nil:
+		return "badstart"
+	}
+	return "other"
 }
 
 const unknownPeer = 9999
@@ -290,6 +319,7 @@ func runSubset(c Case, t tbl, o *Obs) {
 	if !d.WaitDone() {
 		o.OtherError = "session did not return"
 	}
+	noteDriver(o, d)
 	o.ExclOK = true
 	for _, call := range proc.ReadyCalls() {
 		o.Calls = append(o.Calls, t.indices(call.Ready))
@@ -353,47 +383,54 @@ func runWait(c Case, t tbl, o *Obs) {
 		ferr = co.Execute(ctx, []tss.TssProcess{proc}, res)
 	}()
 	d := &fk.C07Driver{Comm: cm, Proc: proc, Sid: c.Sid, Done: done}
+	var last *Msg // the last consumed message that can end a session
+	sawBad := false
 loop:
-	for _, m := range c.Msgs {
+	for i := range c.Msgs {
+		m := c.Msgs[i]
 		from := t.ids[m.From]
-		terminal := false
+		consumed := false
 		switch m.Type {
 		case "initiate":
-			d.Deliver(comm.TssInitiateMsg, 1, from, []byte{})
+			consumed = d.Deliver(comm.TssInitiateMsg, 1, from, []byte{})
 		case "start":
 			payload := []byte("{not a start message")
 			if !m.Bad {
 				payload = fk.C07StartPayload(t.pick(m.Params))
 			}
-			if d.Deliver(comm.TssStartMsg, 1, from, payload) && from == genuine {
-				if m.Bad {
-					terminal = true
-				} else {
-					d.WaitRuns(1)
-				}
+			consumed = d.Deliver(comm.TssStartMsg, 1, from, payload)
+			if consumed && from == genuine && !m.Bad {
+				proc.WaitRuns(1, done, fk.C07Settle)
 			}
 		case "fail":
-			if d.Deliver(comm.TssFailMsg, 1, from, []byte{}) && from == genuine {
-				terminal = true
-			}
+			consumed = d.Deliver(comm.TssFailMsg, 1, from, []byte{})
 		default:
 			panic("unknown message type " + m.Type)
 		}
-		if terminal {
-			d.WaitDone()
-			break loop
+		if consumed && endsSession(m) {
+			last = &c.Msgs[i]
+			sawBad = sawBad || m.Type == "start"
+			// does the session end on it?  As the code stands it does on the coordinator's; whether it
+			// does is an observation either way, and the case goes on if it does not
+			settle := fk.C07Quiet
+			if from == genuine {
+				settle = fk.C07Settle
+			}
+			if d.Settled(settle) {
+				break loop
+			}
 		}
-		select {
-		case <-done:
+		if d.Finished() {
 			break loop
-		default:
 		}
 	}
 	cancel()
 	if !d.WaitDone() {
 		o.OtherError = "Execute did not return"
+		noteDriver(o, d)
 		return
 	}
+	noteDriver(o, d)
 	for _, s := range cm.Sent() {
 		if s.Type == comm.TssReadyMsg {
 			p := unknownPeer
@@ -411,15 +448,22 @@ loop:
 		}
 		o.Outs = append(o.Outs, Out{Kind: "run", Params: a})
 	}
-	var syn *json.SyntaxError
-	switch {
-	case ferr == nil:
-	case strings.Contains(ferr.Error(), "tss fail message received"):
+	switch sessionEnd(ferr, last, sawBad) {
+	case "":
+	case "abort":
 		o.Outs = append(o.Outs, Out{Kind: "abort"})
-	case errors.As(ferr, &syn):
+	case "badstart":
 		o.Outs = append(o.Outs, Out{Kind: "badstart"})
 	default:
 		o.OtherError = ferr.Error()
+	}
+}
+
+// noteDriver: a wait of the driver ran into a SHORTENED deadline (the run is degraded after three stuck
+// waits): the case was not driven.
+func noteDriver(o *Obs, d *fk.C07Driver) {
+	if d.Unsure && o.Harness == "" {
+		o.Harness = "a wait ran into the shortened deadline"
 	}
 }
 
@@ -521,7 +565,7 @@ func driveRetry(c Case, t tbl, o *Obs, bullyWait time.Duration) (raceLost bool) 
 			d.Deliver(comm.TssStartMsg, 1, genuine, fk.C07StartPayload(t.pick(c.Start1)))
 		}
 		if !d.WaitRuns(1) {
-			o.OtherError = "first attempt did not reach Run"
+			o.Harness = "first attempt did not reach Run"
 			cancel()
 			d.WaitDone()
 			return false
@@ -530,6 +574,9 @@ func driveRetry(c Case, t tbl, o *Obs, bullyWait time.Duration) (raceLost bool) 
 	}
 	ready1 := cm.CountSent(comm.TssReadyMsg)
 	init1 := cm.CountSent(comm.TssInitiateMsg)
+	var last *Msg // the last consumed message that can end a session
+	sawBad := false
+	failMsg := Msg{Type: "fail"}
 
 	// ---- retried attempt
 	readyOrd, startOrd := 1, 1
@@ -539,15 +586,16 @@ func driveRetry(c Case, t tbl, o *Obs, bullyWait time.Duration) (raceLost bool) 
 	if c.Cause == "silent" || !role1 {
 		startOrd = 2
 	}
-	sub := cm.WaitAnySub(c.Sid, []fk.ScriptWant{{Type: comm.TssReadyMsg, Ordinal: readyOrd}, {Type: comm.TssStartMsg, Ordinal: startOrd}}, done, fk.C07Deadline())
+	limit := fk.C07Deadline()
+	sub := cm.WaitAnySub(c.Sid, []fk.ScriptWant{{Type: comm.TssReadyMsg, Ordinal: readyOrd}, {Type: comm.TssStartMsg, Ordinal: startOrd}}, done, limit)
 	switch {
 	case sub == nil:
-		select {
-		case <-done:
-		default:
-			d.NoteStuck()
+		if !d.Finished() {
+			d.Expired(limit)
 		}
-		o.OtherError = "no retried attempt"
+		// the retried attempt these cases are about did not come about (whether the relayer retries is
+		// C11's subject): nothing to feed
+		o.Harness = "no retried attempt"
 	case sub.Type == comm.TssReadyMsg && c.Winner != nil:
 		raceLost = true
 	case sub.Type == comm.TssStartMsg && c.Winner == nil:
@@ -561,56 +609,65 @@ func driveRetry(c Case, t tbl, o *Obs, bullyWait time.Duration) (raceLost bool) 
 					continue
 				}
 				d.Deliver(comm.TssReadyMsg, readyOrd, from, nil)
-			} else {
-				d.Deliver(comm.TssFailMsg, 2, from, []byte{})
+			} else if d.Deliver(comm.TssFailMsg, 2, from, []byte{}) {
+				last = &failMsg
+				if d.Settled(fk.C07Quiet) {
+					break
+				}
 			}
 		}
 	default:
 	loop:
-		for _, m := range c.Msgs {
+		for i := range c.Msgs {
+			m := c.Msgs[i]
 			from := t.ids[m.From]
-			terminal := false
+			consumed := false
 			switch m.Type {
 			case "initiate":
-				d.Deliver(comm.TssInitiateMsg, startOrd, from, []byte{})
+				consumed = d.Deliver(comm.TssInitiateMsg, startOrd, from, []byte{})
 			case "start":
 				payload := []byte("{not a start message")
 				if !m.Bad {
 					payload = fk.C07StartPayload(t.pick(m.Params))
 				}
-				if d.Deliver(comm.TssStartMsg, startOrd, from, payload) && from == c2 {
-					if m.Bad {
-						terminal = true
-					} else {
-						d.WaitRuns(nfirst + 1)
-					}
+				consumed = d.Deliver(comm.TssStartMsg, startOrd, from, payload)
+				if consumed && from == c2 && !m.Bad {
+					proc.WaitRuns(nfirst+1, done, fk.C07Settle)
 				}
 			case "fail":
 				// handleError's watcher: the second fail subscription of the session
-				d.Deliver(comm.TssFailMsg, 2, from, []byte{})
+				consumed = d.Deliver(comm.TssFailMsg, 2, from, []byte{})
 			default:
 				panic("unknown message type " + m.Type)
 			}
-			if terminal {
-				d.WaitDone()
-				break loop
+			if consumed && endsSession(m) {
+				last = &c.Msgs[i]
+				sawBad = sawBad || m.Type == "start"
+				// whether the session ends on it is an observation; the case goes on if it does not
+				settle := fk.C07Quiet
+				if from == c2 && m.Type == "start" {
+					settle = fk.C07Settle
+				}
+				if d.Settled(settle) {
+					break loop
+				}
 			}
-			select {
-			case <-done:
+			if d.Finished() {
 				break loop
-			default:
 			}
 		}
 	}
 	cancel()
 	if !d.WaitDone() {
 		o.OtherError = "Execute did not return"
+		noteDriver(o, d)
 		return false
 	}
+	noteDriver(o, d)
 	if raceLost {
 		return true
 	}
-	if c.Winner == nil && cm.CountSent(comm.TssInitiateMsg) == init1 && o.OtherError == "" {
+	if c.Winner == nil && cm.CountSent(comm.TssInitiateMsg) == init1 && o.OtherError == "" && o.Harness == "" {
 		// the coordinator of the retried attempt broadcasts initiate before anything else
 		o.OtherError = "this relayer did not initiate the retried attempt"
 	}
@@ -644,13 +701,12 @@ func driveRetry(c Case, t tbl, o *Obs, bullyWait time.Duration) (raceLost bool) 
 			o.Run = &a
 		}
 	}
-	var syn *json.SyntaxError
-	switch {
-	case ferr == nil:
-	case strings.Contains(ferr.Error(), "tss fail message received"):
+	switch sessionEnd(ferr, last, sawBad) {
+	case "":
+	case "abort":
 		o.Outs = append(o.Outs, Out{Kind: "abort"})
 		o.Aborted = true
-	case errors.As(ferr, &syn):
+	case "badstart":
 		o.Outs = append(o.Outs, Out{Kind: "badstart"})
 	default:
 		o.OtherError = ferr.Error()
@@ -683,7 +739,7 @@ func timedCoordinator(c Case, t tbl) peer.ID {
 // times (counted from the moment the wait - the start-message subscription of the attempt - exists),
 // then watches the relayer until the horizon.  late: the runner itself could not keep the schedule
 // (machine stalled): the caller repeats the run.
-func driveTimed(c Case, t tbl, msgs []Msg, bullyWait time.Duration) (o TObs, other string, late, raceLost bool) {
+func driveTimed(c Case, t tbl, msgs []Msg, bullyWait time.Duration) (o TObs, other, harness string, late, raceLost bool) {
 	self := t.ids[c.Self]
 	holders := t.pick(c.Holders)
 	h := fk.NewScriptHost(self, t.ids)
@@ -726,18 +782,24 @@ func driveTimed(c Case, t tbl, msgs []Msg, bullyWait time.Duration) (o TObs, oth
 	done := make(chan struct{})
 	res := make(chan interface{}, 8)
 	var ferr error
+	var returned time.Time // when Execute returned
 	var box crashBox
 	defer box.rethrow()
+	launched := time.Now() // the first attempt's watcher (TssTimeout) cannot have begun earlier
 	go func() {
 		defer close(done)
 		defer box.guard()
 		ferr = co.Execute(ctx, []tss.TssProcess{proc}, res)
+		returned = time.Now()
 	}()
 	d := &fk.C07Driver{Comm: cm, Proc: proc, Sid: c.Sid, Done: done}
 	finish := func() {
 		cancel()
 		if !d.WaitDone() {
 			other = "Execute did not return"
+		}
+		if d.Unsure && harness == "" {
+			harness = "a wait ran into the shortened deadline"
 		}
 	}
 	nfirst, startOrd, failOrd := 0, 1, 1
@@ -752,24 +814,32 @@ func driveTimed(c Case, t tbl, msgs []Msg, bullyWait time.Duration) (o TObs, oth
 		d.Deliver(comm.TssStartMsg, 1, genuine, fk.C07StartPayload(t.pick(c.Start1)))
 		if !d.WaitRuns(1) {
 			finish()
-			return o, "first attempt did not reach Run", false, false
+			return o, "", "first attempt did not reach Run", false, false
 		}
 		nfirst, startOrd, failOrd = 1, 2, 2
 	}
 	ready1 := cm.CountSent(comm.TssReadyMsg)
-	sub := cm.WaitAnySub(c.Sid, []fk.ScriptWant{{Type: comm.TssStartMsg, Ordinal: startOrd}, {Type: comm.TssReadyMsg, Ordinal: 1}}, done, fk.C07Deadline())
+	limit := fk.C07Deadline()
+	sub := cm.WaitAnySub(c.Sid, []fk.ScriptWant{{Type: comm.TssStartMsg, Ordinal: startOrd}, {Type: comm.TssReadyMsg, Ordinal: 1}}, done, limit)
 	if sub == nil {
+		if !d.Finished() {
+			d.Expired(limit)
+		}
 		finish()
-		return o, "the wait did not begin", false, false
+		return o, "", "the wait did not begin", false, false
 	}
 	if sub.Type == comm.TssReadyMsg {
 		// the scripted winner's announcement lost the race against BullyWaitTime: this relayer coordinates
 		finish()
-		return o, "", false, true
+		return o, "", "", false, true
 	}
 	began := time.Now()
 	const tolerance = 120 * time.Millisecond
-	for _, m := range msgs {
+	var last *Msg // the last consumed message that can end a session
+	sawBad := false
+	undelivered := false
+	for i := range msgs {
+		m := msgs[i]
 		due := began.Add(time.Duration(m.At) * time.Millisecond)
 		if wait := time.Until(due); wait > 0 {
 			select {
@@ -778,6 +848,8 @@ func driveTimed(c Case, t tbl, msgs []Msg, bullyWait time.Duration) (o TObs, oth
 			}
 		}
 		if d.Stuck {
+			// the rest of the schedule is not delivered: the two runs of the case cannot be compared
+			undelivered = !d.Finished()
 			break
 		}
 		from := t.ids[m.From]
@@ -792,7 +864,8 @@ func driveTimed(c Case, t tbl, msgs []Msg, bullyWait time.Duration) (o TObs, oth
 			}
 			consumed = d.Deliver(comm.TssStartMsg, startOrd, from, payload)
 			if consumed && from == expected && !m.Bad {
-				d.WaitRuns(nfirst + 1)
+				// the Run follows at once; if it does not the schedule goes on (an offer ends when a Run begins)
+				proc.WaitRuns(nfirst+1, done, 3*fk.C07Quiet)
 			}
 		case "fail":
 			consumed = d.Deliver(comm.TssFailMsg, failOrd, from, []byte{})
@@ -802,6 +875,14 @@ func driveTimed(c Case, t tbl, msgs []Msg, bullyWait time.Duration) (o TObs, oth
 		// only the coordinator's own messages have to be punctual: the others must not matter
 		if consumed && from == expected && time.Since(due) > tolerance {
 			late = true
+		}
+		if consumed && endsSession(m) {
+			last = &msgs[i]
+			sawBad = sawBad || m.Type == "start"
+			// as the code stands the session ends on the coordinator's: nothing is offered while it does
+			if from == expected && d.Settled(fk.C07Quiet) {
+				break
+			}
 		}
 	}
 	// watch until the horizon
@@ -820,6 +901,9 @@ func driveTimed(c Case, t tbl, msgs []Msg, bullyWait time.Duration) (o TObs, oth
 	}
 	_, active, _ := proc.RunState()
 	finish()
+	if (undelivered || d.Stuck && !endedBySelf) && harness == "" {
+		harness = "a wait of the runner ran into its deadline: the schedule was not delivered"
+	}
 	k := 0
 	for _, s := range cm.Sent() {
 		if s.Type == comm.TssReadyMsg {
@@ -844,38 +928,49 @@ func driveTimed(c Case, t tbl, msgs []Msg, bullyWait time.Duration) (o TObs, oth
 		}
 		o.Outs = append(o.Outs, Out{Kind: "run", Params: a})
 	}
-	var syn *json.SyntaxError
+	// How the wait ended, from the error's TYPE, the recorded SEQUENCE and the CLOCK - never from the
+	// error's text.  The watcher's ticker (TssTimeout, finite in the first-attempt cases only) cannot fire
+	// before launched + TssTimeout, and an Execute that returns an error of no particular type at or after
+	// that moment was ended by it; earlier, by the last consumed message that can end a session.
 	var ce *tss.CoordinatorError
+	watchDue := c.TTO > 0 && !retryVariant && !returned.IsZero() && returned.Sub(launched) >= msOrHour(c.TTO)
 	switch {
 	case !endedBySelf:
 		o.End = "waiting"
 		if active {
 			o.End = "running"
 		}
-		if ferr != nil {
+		if sessionEnd(ferr, nil, false) != "" {
 			other = "after the horizon: " + ferr.Error()
 		}
 	case ferr == nil:
 		o.End = "finished"
 		other = "Execute returned nil by itself"
-	case strings.Contains(ferr.Error(), "tss fail message received"):
-		o.Outs = append(o.Outs, Out{Kind: "abort"})
-		o.End = "finished"
-	case errors.As(ferr, &syn):
-		o.Outs = append(o.Outs, Out{Kind: "badstart"})
-		o.End = "finished"
 	case errors.As(ferr, &ce):
 		o.End = "coord-timeout"
 		if ce.Peer != expected {
 			other = "CoordinatorError blames " + ce.Peer.String()
 		}
-	case strings.Contains(ferr.Error(), "tss process timed out"):
-		o.End = "watch-timeout"
 	default:
-		o.End = "finished"
-		other = ferr.Error()
+		var syn *json.SyntaxError
+		switch end := sessionEnd(ferr, last, sawBad); {
+		case errors.As(ferr, &syn) && sawBad:
+			o.Outs = append(o.Outs, Out{Kind: "badstart"})
+			o.End = "finished"
+		case watchDue:
+			o.End = "watch-timeout"
+		case end == "abort":
+			o.Outs = append(o.Outs, Out{Kind: "abort"})
+			o.End = "finished"
+		case end == "badstart":
+			o.Outs = append(o.Outs, Out{Kind: "badstart"})
+			o.End = "finished"
+		default:
+			o.End = "finished"
+			other = ferr.Error()
+		}
 	}
-	return o, other, late, false
+	return o, other, harness, late, false
 }
 
 // runTimed drives the real relayer twice, concurrently: fed all messages, and fed only those of the
@@ -888,29 +983,30 @@ func runTimed(c Case, t tbl, o *Obs) {
 			own = append(own, m)
 		}
 	}
-	one := func(msgs []Msg) (TObs, string) {
+	// one run; harness != "": the RUNNER could not drive it (after 4 tries)
+	one := func(msgs []Msg) (TObs, string, string) {
 		wait := 300 * time.Millisecond
 		var r TObs
-		var other string
+		var other, harness string
 		for try := 1; try <= 4; try++ {
 			var late, lost bool
-			r, other, late, lost = driveTimed(c, t, msgs, wait)
+			r, other, harness, late, lost = driveTimed(c, t, msgs, wait)
 			r.Tries = try
 			if lost {
 				wait = 1500 * time.Millisecond
-				other = "the scripted winner of the bully election lost the race"
+				harness = "the scripted winner of the bully election lost the race"
 				continue
 			}
 			if !late {
-				return r, other
+				return r, other, harness
 			}
-			other = "the runner could not keep the schedule"
+			harness = "the runner could not keep the schedule"
 		}
-		return r, other
+		return r, other, harness
 	}
 	var wg sync.WaitGroup
 	var a, b TObs
-	var oa, ob string
+	var oa, ob, ha, hb string
 	var crash interface{}
 	guard := func() {
 		if r := recover(); r != nil {
@@ -919,8 +1015,8 @@ func runTimed(c Case, t tbl, o *Obs) {
 		wg.Done()
 	}
 	wg.Add(2)
-	go func() { defer guard(); a, oa = one(c.Msgs) }()
-	go func() { defer guard(); b, ob = one(own) }()
+	go func() { defer guard(); a, oa, ha = one(c.Msgs) }()
+	go func() { defer guard(); b, ob, hb = one(own) }()
 	wg.Wait()
 	if crash != nil {
 		panic(crash)
@@ -930,6 +1026,12 @@ func runTimed(c Case, t tbl, o *Obs) {
 		o.OtherError = "all: " + oa
 	} else if ob != "" {
 		o.OtherError = "own: " + ob
+	}
+	// the judge compares the two runs: if either could not be driven there is nothing to compare
+	if ha != "" {
+		o.Harness = "all: " + ha
+	} else if hb != "" {
+		o.Harness = "own: " + hb
 	}
 }
 
@@ -943,7 +1045,7 @@ func runRetry(c Case, t tbl, o *Obs) {
 	if driveRetry(c, t, o, wait) {
 		*o = Obs{Keys: o.Keys, Coord: -1, CoordPerm: -1}
 		if driveRetry(c, t, o, 1500*time.Millisecond) {
-			o.OtherError = "the scripted winner of the bully election lost the race twice"
+			o.Harness = "the scripted winner of the bully election lost the race twice"
 		}
 	}
 }
@@ -1742,6 +1844,12 @@ func msN(ms int) string {
 }
 
 func coq(c Case, o Obs) string {
+	if o.Harness != "" {
+		// the runner could not drive the case: never judged, counted as broken correspondence
+		o2 := o
+		o2.Harness = ""
+		return "Undriven (" + coq(c, o2) + ")"
+	}
 	switch c.Kind {
 	case "timed":
 		c2 := "None"
@@ -1848,6 +1956,9 @@ func main() {
 		Coq:       coq,
 		Kind:      kind,
 		NonTrivial: func(c Case, o Obs) bool {
+			if o.Harness != "" {
+				return false
+			}
 			switch c.Kind {
 			case "elect":
 				return len(c.Holders) >= 2
